@@ -112,8 +112,16 @@ Theorem C17_refuted_missing_namesake :
         = [mk_edge EInh 4 6 1; mk_edge EAssoc 4 3 7; mk_edge EAssoc 6 2 9; mk_edge EAssoc 6 3 7]).
 Proof. exact missing_namesake_refuted. Qed.
 
+(* regression (C17-g, repaired by 2a64235): the PEP 604 spelling `X | None` of Optional[X].  is_optional as it was did not
+   accept it; it is inside wf_ty now (C17_classify applies) *)
+Theorem C17_regression_pep604 : forall c d df,
+  let f := {| resolved_type := Pep604 (Cls c); has_default := d; has_default_factory := df |} in
+  old_is_optional (Pep604 (Cls c)) = false /\ wf_ty (Pep604 (Cls c)) = true /\
+  is_optional f = Ok true /\ type_endpoint f = Ok (Cls c) /\ kinds_of f = Ok (spec_kind (Pep604 (Cls c))).
+Proof. exact pep604_regression. Qed.
+
 Example C17_nonvacuous :
-  wf_ty (Optional (Cls 2)) = true /\ wf_ty (OptionalL (Cls 2)) = true /\ wf_ty (Cont KList (Enum 3)) = true /\ wf_ty (TypeOf (Cls 2)) = true /\
+  wf_ty (Optional (Cls 2)) = true /\ wf_ty (OptionalL (Cls 2)) = true /\ wf_ty (Pep604 (Cls 2)) = true /\ wf_ty (Cont KList (Enum 3)) = true /\ wf_ty (TypeOf (Cls 2)) = true /\
   k_one_to_one (spec_kind (Optional (Cls 2))) = true /\ k_endpoint (spec_kind (TypeOf (Cls 2))) = Cls 2 /\
   g_edges (sub_graph false witness_graph) <> g_edges witness_graph /\
   wf_prog example_prog = true /\ wf_classes example_prog [4; 3; 2] = true /\
@@ -136,3 +144,4 @@ Print Assumptions C17_regression_union_none_first.
 Print Assumptions C17_regression_two_unresolved.
 Print Assumptions C17_regression_namesake_retry.
 Print Assumptions C17_refuted_missing_namesake.
+Print Assumptions C17_regression_pep604.
